@@ -74,60 +74,176 @@ def check_freq(led):
                     return r, list(log)
                 res = it.explore(run)
                 n_paths += len(res)
-                for path, out in res:
-                    name = '%s[%s]' % (FQ, tag)
-                    if out[0] == 'raise':
-                        e = out[1]
-                        mdl = None
-                        try:
-                            r_, m_ = __import__('cmverif.smt', fromlist=['x']).satisfiable(list(it.facts) + [pysym.cond_z3(c) for c in path.conds])
-                            mdl = {str(d): str(m_[d]) for d in m_.decls() if str(d).startswith('i!')} if r_ == 'sat' else None
-                        except Exception:
-                            pass
-                        led.fail('%s/no-exception/%s' % (name, raise_signature(e)), FQ,
-                                 {'raises': e.tname, 'message': [str(a)[:200] for a in e.eargs], 'sizes_that_trigger_it': mdl},
-                                 backend='z3', signature=raise_signature(e), replay=replay_small(mdl))
-                        continue
-                    (eigvals, eigvecs), calls = out[1]
-                    probs = []
-                    solver = [c for c in calls if c['fn'] in ('eigs', 'eig')]
-                    if not solver:
-                        probs.append('no eigen-solver call')
-                    else:
-                        c = solver[-1]
-                        cid = calls.index(c)
-                        vbase, vsel = strip_selectors(getattr(eigvals, 'term', None))
-                        mbase, msel = strip_selectors(getattr(eigvecs, 'term', None))
-                        if sparse:
-                            if c['A'] != ('restrict', 'K', 'K') or c['M'] != ('restrict', 'M', 'K'):
-                                probs.append('eigs operators are A=%r M=%r, expected K and M restricted to the non-null columns of K' % (c['A'], c['M']))
-                            if c['kw'].get('sigma') != '-1' or c['kw'].get('which') != 'LM':
-                                probs.append('eigs keywords %r, expected sigma=-1, which=LM (lowest frequencies)' % (c['kw'],))
-                            if vbase != ('sqrt', ('eigvals', cid)):
-                                probs.append('frequencies are %r, expected sqrt of the solver values (omega^2 -> omega)' % (vbase,))
-                        else:
-                            if vbase != ('sqrt', ('/', 'swap', ('eigvals', cid), '-1')):
-                                probs.append('frequencies are %r, expected sqrt(-1/nu) of the solver values of (-M) v = nu K v' % (vbase,))
-                            A_ok = isinstance(c['A'], tuple) and c['A'][0] == 'neg'
-                            if not A_ok:
-                                probs.append('dense solver first operand is %r, expected -M' % (c['A'],))
-                        if not sparse:
-                            # active amplitudes of the dense path: exactly those with a non-zero mass column sum
-                            rows = None
-                            t_ = mbase
-                            if isinstance(t_, tuple) and t_ and t_[0] == 'store':
-                                rows = t_[2][0]
-                            ok_masks = [('mask', ('cmp', '!=', ('sum', 0, 'M'), z_)) for z_ in (0, '0')] + [('mask', ('cmp', '>', ('abs', ('sum', 0, 'M')), z_)) for z_ in (0, '0')]
-                            if rows is not None and rows not in ok_masks:
-                                probs.append('modes are scattered into rows %r, expected the amplitudes whose mass column sum is non-zero' % (rows,))
-                        if vsel != msel:
-                            probs.append('values and modes are selected differently: %r vs %r (pairing of column i with value i is lost)' % (vsel, msel))
-                    if probs:
-                        led.fail(name + '/post', FQ, {'differences': probs}, signature=';'.join(probs)[:150], replay=replay_small(None))
-                    else:
-                        led.ok(name + '/post', FQ)
+                analyse(led, it, res, FQ, tag, sparse, 'K', 'M', replay_small)
                 led.solver_time('z3-feasibility', it.solver_time)
     led.extra['paths'] = n_paths
+
+
+
+def norm(t):
+    """a + b is commutative and associative"""
+    if isinstance(t, tuple) and t and t[0] == '+':
+        flat = []
+
+        def go(x):
+            if isinstance(x, tuple) and x and x[0] == '+':
+                for y in x[1:]:
+                    go(y)
+            else:
+                flat.append(norm(x))
+        go(t)
+        return ('+',) + tuple(sorted(flat, key=repr))
+    if isinstance(t, tuple):
+        return tuple(norm(x) for x in t)
+    return t
+
+
+def base_of(t):
+    while isinstance(t, tuple) and t and t[0] == 'index':
+        t = t[1]
+    return t
+
+
+def mentions(t, what):
+    if norm(t) == norm(what):
+        return True
+    if isinstance(t, tuple):
+        return any(mentions(x, what) for x in t)
+    return False
+
+
+def analyse(led, it, res, func, tag, sparse, Kt, Mt, replay):
+    for path, out in res:
+        name = '%s[%s]' % (func, tag)
+        if out[0] == 'raise':
+            e = out[1]
+            mdl = None
+            try:
+                r_, m_ = __import__('cmverif.smt', fromlist=['x']).satisfiable(list(it.facts) + [pysym.cond_z3(c) for c in path.conds])
+                mdl = {str(d): str(m_[d]) for d in m_.decls() if str(d).startswith('i!')} if r_ == 'sat' else None
+            except Exception:
+                pass
+            led.fail('%s/no-exception/%s' % (name, raise_signature(e)), func,
+                     {'raises': e.tname, 'message': [str(a)[:200] for a in e.eargs], 'sizes_that_trigger_it': mdl},
+                     backend='z3', signature=raise_signature(e), replay=replay(mdl) if replay else None)
+            continue
+        (eigvals, eigvecs), calls = out[1]
+        probs = []
+        solver = [c for c in calls if c['fn'] in ('eigs', 'eig')]
+        if not solver:
+            probs.append('no eigen-solver call')
+        else:
+            c = solver[-1]
+            cid = calls.index(c)
+            vbase, vsel = strip_selectors(getattr(eigvals, 'term', None))
+            mbase, msel = strip_selectors(getattr(eigvecs, 'term', None))
+            if sparse:
+                if norm(c['A']) != norm(('restrict', Kt, Kt)) or norm(c['M']) != norm(('restrict', Mt, Kt)):
+                    probs.append('eigs operators are A=%r M=%r, expected K and M restricted to the non-null columns of K' % (c['A'], c['M']))
+                if c['kw'].get('sigma') != '-1' or c['kw'].get('which') != 'LM':
+                    probs.append('eigs keywords %r, expected sigma=-1, which=LM (lowest frequencies)' % (c['kw'],))
+                if vbase != ('sqrt', ('eigvals', cid)):
+                    probs.append('frequencies are %r, expected sqrt of the solver values (omega^2 -> omega)' % (vbase,))
+            else:
+                if vbase != ('sqrt', ('/', 'swap', ('eigvals', cid), '-1')):
+                    probs.append('frequencies are %r, expected sqrt(-1/nu) of the solver values of (-M) v = nu K v' % (vbase,))
+                A_ok = isinstance(c['A'], tuple) and c['A'][0] == 'neg' and norm(base_of(c['A'][1])) == norm(Mt)
+                B_ok = norm(base_of(c['M'])) == norm(Kt)
+                if not A_ok:
+                    probs.append('dense solver first operand is %r, expected -M (restricted)' % (c['A'],))
+                if not B_ok:
+                    probs.append('dense solver second operand is %r, expected K (restricted)' % (c['M'],))
+            if not sparse:
+                # active amplitudes of the dense path: exactly those with a non-zero mass column sum
+                rows = None
+                t_ = mbase
+                if isinstance(t_, tuple) and t_ and t_[0] == 'store':
+                    rows = t_[2][0]
+                ok_masks = [('mask', ('cmp', '!=', ('sum', 0, Mt), z_)) for z_ in (0, '0')] + [('mask', ('cmp', '>', ('abs', ('sum', 0, Mt)), z_)) for z_ in (0, '0')]
+                if rows is not None and rows not in ok_masks:
+                    probs.append('modes are scattered into rows %r, expected the amplitudes whose mass column sum is non-zero' % (rows,))
+            if vsel != msel:
+                probs.append('values and modes are selected differently: %r vs %r (pairing of column i with value i is lost)' % (vsel, msel))
+        if probs:
+            led.fail(name + '/post', func, {'differences': probs}, signature=';'.join(probs)[:150], replay=replay(None) if replay else None)
+        else:
+            led.ok(name + '/post', func)
+
+
+PF = 'compmech/panel/_panel.py:Panel.freq'
+
+
+def replay_panel_small(mdl):
+    from ..pyreplay import run_real
+    script = """
+from compmech.panel import Panel
+res = {}
+for sp in (True, False):
+    for rd in (False, True):
+        p = Panel(a=1., b=0.5, stack=[0, 90], plyt=1e-3, mu=1.3e3, laminaprop=(142.5e9, 8.7e9, 0.28, 5.1e9, 5.1e9, 5.1e9), m=2, n=2)
+        p.num_eigvalues = payload["num"]
+        try:
+            p.freq(silent=True, sparse_solver=sp, reduced_dof=rd)
+            res["sparse=%s,reduced_dof=%s" % (sp, rd)] = "ok %d values, modes %s" % (len(p.eigvals), p.eigvecs.shape)
+        except Exception as e:
+            res["sparse=%s,reduced_dof=%s" % (sp, rd)] = "raised %s: %s" % (type(e).__name__, str(e)[:120])
+out = {"result": res}
+"""
+    r = run_real(script, {'num': 12})
+    r['reproduced'] = any('raised' in v for v in (r.get('result') or {}).values())
+    r['input'] = 'simply supported plate m=n=2 (12 amplitudes, 4 active), num_eigvalues=12, solver switches x reduced_dof'
+    return r
+
+
+def check_panel_freq(led):
+    """Panel.freq (duplicate implementation of analysis.freq): the same obligations, with K the sum of the panel's own matrices
+    selected by atype (1: k0+kA+kG0, 2: k0+kA, 3: k0+kG0, 4: k0) and M = kM, each computed by the panel's calc_* method."""
+    led.function(PF)
+    from .. import panelctx
+    want_K = {1: ('+', 'k0', 'kA', 'kG0'), 2: ('+', 'k0', 'kA'), 3: ('+', 'k0', 'kG0'), 4: 'k0'}
+    want_calls = {1: {'calc_k0', 'calc_kM', 'calc_kG0', 'calc_kA'}, 2: {'calc_k0', 'calc_kM', 'calc_kA'}, 3: {'calc_k0', 'calc_kM', 'calc_kG0'}, 4: {'calc_k0', 'calc_kM'}}
+    for atype in (1, 2, 3, 4):
+        for sparse in (True, False):
+            for sort in (True, False):
+                for reduced in ((False, True) if not sparse else (False,)):
+                    it, log = mk()
+                    n = integer('size')
+                    num = integer('num_eigvalues')
+                    it.facts += [to_z3(n) >= 6, to_z3(n) <= 400, to_z3(num) >= 1, to_z3(num) <= 25]
+                    mcalls = []
+
+                    def contract(nm, attr):
+                        def c(itp, a, kw):
+                            mcalls.append(nm)
+                            a[0].attrs[attr] = AArr((n, n), attr)
+                            return a[0].attrs[attr]
+                        return c
+                    for nm, attr in (('calc_k0', 'k0'), ('calc_kM', 'kM'), ('calc_kG0', 'kG0'), ('calc_kA', 'kA'), ('calc_cA', 'cA')):
+                        it.contracts['compmech.panel._panel.Panel.' + nm] = contract(nm, attr)
+                    tag = 'atype=%d,sparse_solver=%s,sort=%s,reduced_dof=%s' % (atype, sparse, sort, reduced)
+
+                    def run():
+                        del log[:]
+                        del mcalls[:]
+                        p = panelctx.new_panel(it, a=real('a'), b=real('b'), stack=[real('th')], plyt=real('t'), laminaprop=(real('E'), real('E'), real('nu')))
+                        p.attrs['num_eigvalues'] = num
+                        it.call(it.getattr(p, 'freq'), [], dict(atype=atype, sparse_solver=sparse, silent=True, sort=sort, reduced_dof=reduced))
+                        return (p.attrs.get('eigvals'), p.attrs.get('eigvecs')), list(log), set(mcalls)
+                    res = it.explore(run)
+                    res2 = []
+                    for path, out in res:
+                        if out[0] == 'return':
+                            nm = '%s[%s]/matrices-computed' % (PF, tag)
+                            if out[1][2] == want_calls[atype]:
+                                led.ok(nm, PF)
+                            else:
+                                led.fail(nm, PF, {'called': sorted(out[1][2]), 'expected': sorted(want_calls[atype])}, signature='calls')
+                            res2.append((path, ('return', (out[1][0], out[1][1]))))
+                        else:
+                            res2.append((path, out))
+                    analyse(led, it, res2, PF, tag, sparse, want_K[atype], 'kM', replay_panel_small)
+                    led.solver_time('z3-feasibility', it.solver_time)
+                    led.extra['paths'] = led.extra.get('paths', 0) + len(res)
 
 
 def lemma(led):
@@ -143,6 +259,7 @@ def body(led):
     led.assume('C06: solver precision, ordering returned by ARPACK, positivity of the computed values and sparse/dense agreement are not decidable by contracts')
     led.trust('cmverif symbolic executor with abstract arrays (absnp); z3 (LIA) for shape obligations')
     check_freq(led)
+    check_panel_freq(led)
     lemma(led)
     _standin(led)
 
